@@ -27,7 +27,22 @@ func main() {
 	list := flag.Bool("list", false, "list obligations of the property on stdout (debug)")
 	noEvidence := flag.Bool("no-evidence", false, "do not write evidence (used by the self-test on scratch copies)")
 	flag.BoolVar(&quietChild, "child", false, "run as a self-test child: print only the summary")
+	snapshot := flag.Bool("snapshot", false, "write the reference list of module functions (funcs.json) for the current tree and exit")
 	flag.Parse()
+	if *snapshot {
+		p, err := prog.Load(*repo, false, nil)
+		if err != nil {
+			fmt.Println(err)
+			os.Exit(2)
+		}
+		if err := report.WriteJSON(filepath.Join(*verif, "funcs.json"), p.Snapshot()); err != nil {
+			fmt.Println(err)
+			os.Exit(2)
+		}
+		fmt.Printf("%d functions written to %s\n", len(p.Snapshot()), filepath.Join(*verif, "funcs.json"))
+		return
+	}
+	prog.SnapshotPath = filepath.Join(*verif, "funcs.json")
 	if *explain != "" {
 		b, err := os.ReadFile(*explain)
 		if err != nil {
